@@ -1,5 +1,5 @@
 SPECIFICATION Spec
-CONSTANTS N = 8
- Extra = {}
+CONSTANTS N = 3
+ Extra = {7, 8, 11, 12, 21, 40}
  FullShifts = FALSE
 INVARIANT Emit
